@@ -423,3 +423,47 @@ pub fn gen_c13(o: &mut Out, tier: &str, seed: u64) {
         }
     }
 }
+
+pub fn gen_c14(o: &mut Out, tier: &str, seed: u64) {
+    let mut r = Rng::new(seed, "c14");
+    let th = tier == "thorough";
+    let n = if th { 400 } else { 12 };
+    for ty in ["elgamal", "ae"] {
+        for _ in 0..n {
+            o.op("sig", &format!("kdf {} sig {}", ty, hex(&r.bytes(64))));
+        }
+        o.op("sig.zero", &format!("kdf {} sig {}", ty, hex(&[0u8; 64])));
+        o.op("sig.ff", &format!("kdf {} sig {}", ty, hex(&[0xffu8; 64])));
+        // seed lengths at and around both bounds
+        for len in [0usize, 1, 15, 16, 17, 31, 32, 33, 64, 65534, 65535, 65536, 65537] {
+            o.op("seed.length", &format!("kdf {} seed {}", ty, hex(&r.bytes(len))));
+        }
+        for _ in 0..n { let l = 32 + r.below(64) as usize; o.op("seed", &format!("kdf {} seed {}", ty, hex(&r.bytes(l)))); }
+        // recording signer: message = prefix || public seed ; all-zero signature refused
+        for plen in [0usize, 1, 32, 33, 200] {
+            let ps = r.bytes(plen);
+            o.op("signer", &format!("kdf {} signer {} {}", ty, hex(&r.bytes(64)), hex(&ps)));
+            o.op_exp("signer.zero-signature", "err", &format!("kdf {} signer {} {}", ty, hex(&[0u8; 64]), hex(&ps)));
+        }
+        // real ed25519 signers
+        for _ in 0..(if th { 100 } else { 6 }) {
+            let l = r.below(40) as usize;
+            o.op("keypair", &format!("kdf {} keypair {} {}", ty, hex(&r.bytes(32)), hex(&r.bytes(l))));
+        }
+        // seed phrases / passphrases incl. edge whitespace, empty, unicode
+        let phrases = ["abandon abandon abandon abandon abandon abandon abandon abandon abandon abandon abandon about",
+                       "legal winner thank year wave sausage worth useful legal winner thank yellow", "x", ""];
+        let passes = ["", "42", " 42", "42 ", "42\n", "\t42", " ", "pässwörd", "TREZOR"];
+        for ph in phrases { for pw in passes {
+            o.op("phrase", &format!("kdf {} phrase {} {}", ty, hex(ph.as_bytes()), hex(pw.as_bytes())));
+            o.op("phrase", &format!("kdf {} phrase {} {}", ty, hex(format!(" {} ", ph).as_bytes()), hex(pw.as_bytes())));
+        } }
+    }
+    // the two key types differ for the same signer and seed (domain separation): same signature -> both keys
+    for _ in 0..4 {
+        let sig = r.bytes(64);
+        let ps = r.bytes(8);
+        o.op("domain.elgamal", &format!("kdf elgamal signer {} {}", hex(&sig), hex(&ps)));
+        o.op("domain.ae", &format!("kdf ae signer {} {}", hex(&sig), hex(&ps)));
+    }
+}
